@@ -525,6 +525,9 @@ func runC03(c *core.Ctx) {
 		}
 		sort.Strings(els)
 		x := els[r.Intn(len(els))]
+		if r.Intn(6) == 0 {
+			x = w.Recipes[r.Intn(len(w.Recipes))] // a recipe name as element: contributes nothing anywhere
+		}
 		samt, sabs := map[string]*big.Rat{}, map[string]*big.Rat{}
 		for _, d := range w.Log {
 			for _, e := range model.MergeDay(d) {
